@@ -1,5 +1,5 @@
 """C03 - status queries report exactly what the devices answered, now (DESIGN §5 C03)"""
-import json, vlib, pmcheck
+import json, re, vlib, pmcheck
 def foreign_outlet_stage(ctx, V, exe, n):
     """`a node is shown on/off only if its device reported that for ITS plug`: the device starts every answer with a report about an
     outlet nobody asked about - an unconfigured name, or a hard-wired plug that carries no node - whose state is the opposite of what the
@@ -46,7 +46,16 @@ def odd_answer_stage(ctx, V, exe, n):
         def ask(line, tg):
             S.append(("send", 0, (line + "\r\n").encode())); S.append(("wait", 0))
             sc.requests.append(dict(client=0, word="status", line=line, targets=tg))
-        if i % 2 == 0:
+        if i % 6 == 5:
+            # (c) F43 (known finding): a device that answers ONE query with more than the script consumes - here: everything twice; the
+            # surplus stays in dev->from and is taken for the answer to the NEXT query, whatever the outlets do meanwhile
+            sc.tags["style"] = "c03-surplus"
+            first = rng.choice(["ON", "OFF"]); sc.tags["first"] = first
+            S.append(("devstate", "d0", first)); S.append(("devmode", "d0", "surplus"))
+            ask("status n0", ["n0"])
+            S.append(("devstate", "d0", "OFF" if first == "ON" else "ON"))
+            ask("status n0", ["n0"])
+        elif i % 2 == 0:
             for _ in range(3):
                 S.append(("verdict", "d0", rng.choice(["p1", "p2"]), rng.choice(["on", "off", "Offline", "nonsense", "oFF", "conn", "On", "0n", "offON"[:3]])))
                 ask(*rng.choice([("status", ["n0", "n1"]), ("status n0", ["n0"]), ("status n[0-1]", ["n0", "n1"])]))
@@ -58,7 +67,19 @@ def odd_answer_stage(ctx, V, exe, n):
             ask(*rng.choice([("status n0", ["n0"]), ("status", ["n0", "n1"]), ("status n1", ["n1"])]))
             ask("status", ["n0", "n1"])
         scs.append(sc)
-    pmcheck.run_batch(ctx, V, exe, scs, ["alive", "c03", "protocol", "wedge"], "c03o")
+    def mon_c03_sited(sess, sc):
+        # the surplus-answer histories have their own site, so that the known finding F43 does not hide any other stale state
+        bad = [(c, "surplus-answer" if (sc.tags.get("style") == "c03-surplus" and c == "status-invented") else s_, d) for c, s_, d in pmcheck.mon_c03(sess, sc)]
+        if sc.tags.get("style") == "c03-surplus" and sess.alive_after_script:
+            # mon_c03 asks whether the device EVER said so; here the question is whether it said so in answer to THIS query: by the
+            # second query every outlet reports the opposite of `first`
+            reps = [r for r in (pmcheck.split_replies(sess.client_out.get(0, b"")) or []) if isinstance(r[0], int)]
+            word = sc.tags["first"].lower()
+            if len(reps) >= 2 and any(re.match(rb"302 %s: +n0" % word.encode(), ln) for ln in reps[1][1]):
+                bad.append(("status-invented", "surplus-answer", "the second `status n0` shows n0 %s: that is the surplus of the device's answer to the FIRST query (it said everything twice); by the second query the outlet reports the opposite" % word))
+        return bad
+    pmcheck.MONITORS["c03sited"] = mon_c03_sited
+    pmcheck.run_batch(ctx, V, exe, scs, ["alive", "c03sited", "protocol", "wedge"], "c03o")
     V.count("odd-answer-histories", len(scs))
 
 
